@@ -1036,6 +1036,18 @@ func (c *Client) loadServerCert(cert string) error {
 }
 
 func (c *Client) reattach() (net.Addr, error) {
+	// The protocol comes from the reattach configuration instead of from a
+	// handshake line: it is subject to AllowedProtocols all the same.
+	protocol := c.config.Reattach.Protocol
+	if protocol == "" {
+		// Default the protocol to net/rpc for backwards compatibility
+		protocol = ProtocolNetRPC
+	}
+	if !slices.Contains(c.config.AllowedProtocols, protocol) {
+		return nil, fmt.Errorf("Unsupported plugin protocol %q. Supported: %v",
+			protocol, c.config.AllowedProtocols)
+	}
+
 	reattachFunc := c.config.Reattach.ReattachFunc
 	// For backwards compatibility default to cmdrunner.ReattachFunc
 	if reattachFunc == nil {
@@ -1072,11 +1084,7 @@ func (c *Client) reattach() (net.Addr, error) {
 
 	// Set the address and protocol
 	c.address = c.config.Reattach.Addr
-	c.protocol = c.config.Reattach.Protocol
-	if c.protocol == "" {
-		// Default the protocol to net/rpc for backwards compatibility
-		c.protocol = ProtocolNetRPC
-	}
+	c.protocol = protocol
 
 	if c.config.Reattach.Test {
 		c.negotiatedVersion = c.config.Reattach.ProtocolVersion
